@@ -348,7 +348,8 @@ class Failure:
 class Stream:
   """One correspondence stream: Gallina cases checked by `checker` (a Coq function case -> bool)."""
 
-  def __init__(self, name: str, requires: str, case_type: str, checker: str):
+  def __init__(self, name: str, requires: str, case_type: str, checker: str, informational: bool = False):
+    self.informational = informational   # only counts the cases on which `checker` holds (theorem hypotheses)
     self.name = name
     self.requires = requires  # e.g. "From Fiddle Require Import C03Check."
     self.case_type = case_type
